@@ -107,6 +107,13 @@ FIXED += [
   'OpenDir on a manifest with version key "1.99999999999999999999.0", and ParseFinalSource("ns/name/sys@1.99999999999999999999.0"), panicked inside versions.ParseVersion'),
 ]
 
+FIXED += [
+ ("C06", "sub-path-needs-url-escaping", "fix: reject registry hostnames whose normalized form cannot be written back",
+  'registry address "。/0/0/0" printed as "./0/0/0" (a local source); a hostname with an ignorable character between two dots printed with an empty label and did not parse back'),
+ ("C19", "parser-panic", "fix: a registry hostname that cannot be converted for display no longer panics",
+  'a registry hostname with an over-long non-ASCII label was accepted and String() panicked in svchost.Hostname.ForDisplay'),
+]
+
 OPEN = [
  ("C04", "dotdot-after-symlink-component",
   'a link whose target applies ".." after a component that is itself a symlink in dst (e.g. "d/l -> .." together with "m -> d/l/../secret", in either order) is accepted because targets are validated lexically; the operating system resolves m to a location outside dst. No entry can be written through such a link any more (see the fixed C01 entries), but the link itself remains'),
